@@ -6,6 +6,7 @@
     write_flag, *_readable read_flag; ro-data pointer errors under write_flag
  R3 byte order: bytes reversed iff little endian; accumulated most significant first
  R4 MemorySegment constructors fill each flag from the accessor/mask of the same permission
+ R2+ (added after seed C19c) a single-address flag query (is_address_writeable) does not go through a ranged query (read)
 """
 from .lib import sym as S
 from .lib import thir as T
